@@ -1,1 +1,2054 @@
-//! C05 - not built yet
+//! C05 - reflection metadata agrees with the emitted source.
+//!
+//! Invariant monitor. For every pipeline `rssl::compile` returns (targets DirectX / Vulkan / Vulkan with
+//! buffer addresses / Metal x modes all / named / no-pipeline) the monitor reads the EMITTED program
+//! independently of the metadata (HLSL: the emitted text is parsed again with rssl's parser, the syntax tree
+//! handed to the formatter is the fallback; MSL: the syntax tree handed to the formatter plus a line scan of
+//! the printed text for `[[id(n)]]`), extracts every externally bound declaration with its annotation,
+//! declared type and array length, and compares that with the returned `PipelineDescription` and stages.
+//! Reachability (for `is_used`) is computed by an own walk over the parsed SOURCE program.
+//!
+//! Nothing in here calls into rssl's binding / usage analysis code: the tables below are written from the
+//! doc comments of `DescriptorType`, the HLSL register classes and the Metal type names.
+
+use crate::corpus;
+use crate::gen::c05_res;
+use crate::json::Json;
+use crate::par::guard;
+use crate::report::{Ctx, Report};
+use crate::rng::{hash_str, Rng};
+use crate::rs::{self, Files, FilesHandler, Mode, Opts, Outcome, Pipe, Tgt};
+use crate::CheckDef;
+use rssl::ast;
+use rssl::{ApiLocation, DescriptorType as DT, ShaderStage};
+use std::collections::{BTreeSet, HashMap};
+
+pub fn def() -> CheckDef {
+    CheckDef {
+        id: "C05",
+        salt: 0xC05,
+        rule: "inputs: generated programs (gen::c05_res: 0-12 resources of every object kind incl. arrays, bindless, static samplers, \
+               bind_group attributes, register(xN, spaceM), namespaces; 0-2 cbuffers; 0-5 helper functions (default parameters, overloads by \
+               arity, namespaces, struct methods, templates, resource parameters, parameters/locals shadowing a resource) calling each other; \
+               1-4 compute/graphics pipelines whose entry points use random subsets of the resources directly or only through call chains; \
+               identifiers drawn from names reserved in HLSL/MSL), plus every entry file of the tests/ corpus and every RSSL snippet of the \
+               repository's unit tests. Each accepted input is compiled for {DirectX, Vulkan, Vulkan+buffer_address, Msl} x {all, no_pipeline, \
+               named(each pipeline)}; every returned pipeline is examined. evaluations = compile() calls that returned pipelines; \
+               distinct_nontrivial = distinct inputs (content hash) for which at least one metadata binding was compared with a declaration \
+               of the emitted source. The generator does not emit unsized resource arrays (known finding: they get no slot and no \
+               metadata entry on HLSL and are rejected on Metal) nor arrays of buffer addresses / bind groups >= 4 (panics, C08).",
+        assumptions: &[
+            "rssl's own parser reads the emitted HLSL back correctly (cross-checked against the syntax tree handed to the formatter)",
+            "the MSL syntax tree recorded by the verif-hooks feature is the tree that was printed; the printed text is additionally scanned for [[id(n)]]",
+            "reachability is syntactic (call graph + mentions), computed as an under- and an over-approximation; is_used is only judged where they decide",
+        ],
+        min_distinct: (300, 3000),
+        deadline_s: (50.0, 540.0),
+        run,
+        replay,
+    }
+}
+
+// =====================================================================================================
+// 1. A neutral description of a program (used for the source program, the emitted HLSL and the MSL tree)
+// =====================================================================================================
+
+#[derive(Clone, Debug, PartialEq)]
+enum TArg {
+    Ty(Ty),
+    Int(i64),
+    Other,
+}
+
+#[derive(Clone, Debug, PartialEq, Default)]
+struct Ty {
+    /// `metal::texture2d`, `Texture2D`, ...
+    name: String,
+    args: Vec<TArg>,
+    /// modifiers in source order, e.g. ["const"], ["constant"], ["static", "const"]
+    mods: Vec<String>,
+}
+
+#[derive(Clone, Debug, PartialEq)]
+enum ArrayLen {
+    NotArray,
+    Sized(u64),
+    Unsized,
+    /// several dimensions or a length the monitor cannot evaluate
+    Unknown,
+}
+
+#[derive(Clone, Debug, PartialEq)]
+struct Attr {
+    name: String,
+    args: Vec<Option<i64>>,
+    raw: Vec<ast::Expression>,
+}
+
+#[derive(Clone, Debug, PartialEq)]
+enum Storage {
+    Extern,
+    Static,
+    GroupShared,
+}
+
+#[derive(Clone, Debug, PartialEq)]
+enum Init {
+    None,
+    /// `= object.member`
+    Member(String, String),
+    StaticSampler,
+    Other,
+}
+
+#[derive(Clone, Debug, PartialEq)]
+struct Global {
+    name: String,
+    ns: Vec<String>,
+    ty: Ty,
+    array: ArrayLen,
+    reference: bool,
+    attrs: Vec<Attr>,
+    /// register(<letter><index>, space<n>)
+    register: Option<(Option<(char, u32)>, Option<u32>)>,
+    storage: Storage,
+    init: Init,
+    /// Some for `cbuffer X { ... }`: names of the members
+    cbuffer_members: Option<Vec<String>>,
+}
+
+#[derive(Clone, Debug, PartialEq)]
+struct Field {
+    name: String,
+    ty: Ty,
+    array: ArrayLen,
+    reference: bool,
+    attrs: Vec<Attr>,
+}
+
+#[derive(Clone, Debug)]
+struct StructDef {
+    name: String,
+    ns: Vec<String>,
+    fields: Vec<Field>,
+    methods: Vec<usize>,
+}
+
+#[derive(Clone, Debug)]
+struct Param {
+    name: Option<String>,
+    ty: Ty,
+    attrs: Vec<Attr>,
+    default: Option<ast::Expression>,
+}
+
+#[derive(Clone, Debug)]
+struct Func {
+    name: String,
+    ns: Vec<String>,
+    owner: Option<usize>,
+    params: Vec<Param>,
+    attrs: Vec<Attr>,
+    body: Option<Vec<ast::Statement>>,
+}
+
+#[derive(Clone, Debug)]
+struct PipelineDef {
+    name: String,
+    /// (stage, entry function name)
+    stages: Vec<(ShaderStage, String)>,
+}
+
+#[derive(Clone, Debug, PartialEq)]
+enum Sym {
+    Global(usize),
+    CbMember(usize),
+    Func(usize),
+    Type(Option<usize>),
+    Other,
+}
+
+type Consts = HashMap<String, Option<i64>>;
+
+#[derive(Default)]
+struct Prog {
+    globals: Vec<Global>,
+    structs: Vec<StructDef>,
+    funcs: Vec<Func>,
+    pipelines: Vec<PipelineDef>,
+    /// integer constants (`static const uint N = 4;`) by short name; None = defined twice with different values
+    consts: Consts,
+    /// namespace path -> name -> symbols declared at that level
+    levels: HashMap<Vec<String>, HashMap<String, Vec<Sym>>>,
+}
+
+fn ident_string(id: &ast::ScopedIdentifier) -> String {
+    id.identifiers.iter().map(|i| i.node.as_str()).collect::<Vec<_>>().join("::")
+}
+
+fn eval_int(e: &ast::Expression, consts: &Consts) -> Option<i64> {
+    use ast::{BinOp, Expression as E, Literal as L, UnaryOp};
+    match e {
+        E::Literal(L::IntUntyped(v)) | E::Literal(L::IntUnsigned32(v)) | E::Literal(L::IntUnsigned64(v)) => i64::try_from(*v).ok(),
+        E::Literal(L::IntSigned64(v)) => Some(*v),
+        E::Identifier(id) => consts.get(&id.identifiers.last()?.node).copied().flatten(),
+        E::UnaryOperation(UnaryOp::Plus, x) => eval_int(&x.node, consts),
+        E::UnaryOperation(UnaryOp::Minus, x) => eval_int(&x.node, consts)?.checked_neg(),
+        E::BinaryOperation(op, a, b) => {
+            let (a, b) = (eval_int(&a.node, consts)?, eval_int(&b.node, consts)?);
+            match op {
+                BinOp::Add => a.checked_add(b),
+                BinOp::Subtract => a.checked_sub(b),
+                BinOp::Multiply => a.checked_mul(b),
+                BinOp::Divide if b != 0 => a.checked_div(b),
+                BinOp::Modulus if b != 0 => a.checked_rem(b),
+                BinOp::LeftShift if (0..63).contains(&b) => a.checked_shl(b as u32),
+                BinOp::RightShift if (0..63).contains(&b) => Some(a >> b),
+                _ => None,
+            }
+        }
+        E::Cast(_, x) => eval_int(&x.node, consts),
+        E::Call(callee, targs, args) if targs.is_empty() && args.len() == 1 => match &callee.node {
+            E::Identifier(id) if matches!(id.try_trivial().map(|n| n.node.as_str()), Some("uint" | "int" | "uint32_t" | "int32_t")) => eval_int(&args[0].node, consts),
+            _ => None,
+        },
+        _ => None,
+    }
+}
+
+fn ty_of(t: &ast::Type, consts: &Consts) -> Ty {
+    let mut args = Vec::new();
+    for a in t.layout.1.iter() {
+        args.push(match a {
+            ast::ExpressionOrType::Type(tid) => TArg::Ty(ty_of(&tid.base, consts)),
+            ast::ExpressionOrType::Expression(e) => match (eval_int(&e.node, consts), &e.node) {
+                (Some(v), _) => TArg::Int(v),
+                // `metal::access::read_write` is an enumerator, the tree holds it as an expression
+                (None, ast::Expression::Identifier(id)) => TArg::Ty(Ty {
+                    name: ident_string(id),
+                    ..Ty::default()
+                }),
+                (None, _) => TArg::Other,
+            },
+            ast::ExpressionOrType::Either(e, tid) => match eval_int(&e.node, consts) {
+                Some(v) => TArg::Int(v),
+                None => TArg::Ty(ty_of(&tid.base, consts)),
+            },
+        });
+    }
+    Ty {
+        name: ident_string(&t.layout.0),
+        args,
+        mods: t.modifiers.modifiers.iter().map(|m| format!("{:?}", m.node)).collect(),
+    }
+}
+
+struct DeclInfo {
+    name: String,
+    dims: Vec<Option<Option<i64>>>,
+    reference: bool,
+    attrs: Vec<Attr>,
+}
+
+fn attr_of(a: &ast::Attribute, consts: &Consts) -> Attr {
+    Attr {
+        name: a.name.iter().map(|n| n.node.as_str()).collect::<Vec<_>>().join("::"),
+        args: a.arguments.iter().map(|e| eval_int(&e.node, consts)).collect(),
+        raw: a.arguments.iter().map(|e| e.node.clone()).collect(),
+    }
+}
+
+fn find_attr<'a>(attrs: &'a [Attr], name: &str) -> Option<&'a Attr> {
+    attrs.iter().find(|a| a.name == name)
+}
+
+fn declarator_info(d: &ast::Declarator, consts: &Consts) -> Option<DeclInfo> {
+    match d {
+        ast::Declarator::Empty => None,
+        ast::Declarator::Identifier(id, attrs) => Some(DeclInfo {
+            name: id.identifiers.last()?.node.clone(),
+            dims: Vec::new(),
+            reference: false,
+            attrs: attrs.iter().map(|a| attr_of(a, consts)).collect(),
+        }),
+        ast::Declarator::Pointer(p) => declarator_info(&p.inner, consts),
+        ast::Declarator::Reference(r) => {
+            let mut i = declarator_info(&r.inner, consts)?;
+            i.reference = true;
+            Some(i)
+        }
+        ast::Declarator::Array(a) => {
+            let mut i = declarator_info(&a.inner, consts)?;
+            i.dims.push(a.array_size.as_ref().map(|e| eval_int(&e.node, consts)));
+            Some(i)
+        }
+    }
+}
+
+fn array_len(dims: &[Option<Option<i64>>]) -> ArrayLen {
+    match dims {
+        [] => ArrayLen::NotArray,
+        [None] => ArrayLen::Unsized,
+        [Some(Some(n))] if *n >= 0 => ArrayLen::Sized(*n as u64),
+        _ => ArrayLen::Unknown,
+    }
+}
+
+fn storage_of(t: &ast::Type) -> Storage {
+    for m in &t.modifiers.modifiers {
+        match m.node {
+            ast::TypeModifier::Static => return Storage::Static,
+            ast::TypeModifier::GroupShared => return Storage::GroupShared,
+            // Metal: program scope constants live in the constant address space
+            ast::TypeModifier::AddressSpace(_) => return Storage::Static,
+            _ => {}
+        }
+    }
+    Storage::Extern
+}
+
+fn register_of(annotations: &[ast::LocationAnnotation]) -> Option<(Option<(char, u32)>, Option<u32>)> {
+    for a in annotations {
+        if let ast::LocationAnnotation::Register(r) = a {
+            let slot = r.slot.as_ref().map(|s| {
+                let letter = match s.slot_type {
+                    ast::RegisterType::T => 't',
+                    ast::RegisterType::U => 'u',
+                    ast::RegisterType::S => 's',
+                    ast::RegisterType::B => 'b',
+                };
+                (letter, s.index)
+            });
+            return Some((slot, r.space));
+        }
+    }
+    None
+}
+
+impl Prog {
+    fn collect(module: &ast::Module) -> Prog {
+        let mut p = Prog::default();
+        p.collect_defs(&module.root_definitions, &[]);
+        p
+    }
+
+    fn declare(&mut self, ns: &[String], name: &str, sym: Sym) {
+        self.levels.entry(ns.to_vec()).or_default().entry(name.to_string()).or_default().push(sym);
+    }
+
+    fn collect_function(&mut self, f: &ast::FunctionDefinition, ns: &[String], owner: Option<usize>) -> usize {
+        let consts = &self.consts;
+        let params = f
+            .params
+            .iter()
+            .map(|prm| {
+                let info = declarator_info(&prm.declarator, consts);
+                Param {
+                    name: info.as_ref().map(|i| i.name.clone()),
+                    ty: ty_of(&prm.param_type, consts),
+                    attrs: info.map(|i| i.attrs).unwrap_or_default(),
+                    default: prm.default_expr.clone(),
+                }
+            })
+            .collect();
+        let func = Func {
+            name: f.name.node.clone(),
+            ns: ns.to_vec(),
+            owner,
+            params,
+            attrs: f.attributes.iter().map(|a| attr_of(a, consts)).collect(),
+            body: f.body.clone(),
+        };
+        self.funcs.push(func);
+        self.funcs.len() - 1
+    }
+
+    fn collect_defs(&mut self, defs: &[ast::RootDefinition], ns: &[String]) {
+        self.levels.entry(ns.to_vec()).or_default();
+        for d in defs {
+            match d {
+                ast::RootDefinition::Namespace(name, inner) => {
+                    let mut path = ns.to_vec();
+                    path.push(name.node.clone());
+                    self.collect_defs(inner, &path);
+                }
+                ast::RootDefinition::Struct(sd) => {
+                    let index = self.structs.len();
+                    self.structs.push(StructDef {
+                        name: sd.name.node.clone(),
+                        ns: ns.to_vec(),
+                        fields: Vec::new(),
+                        methods: Vec::new(),
+                    });
+                    self.declare(ns, &sd.name.node, Sym::Type(Some(index)));
+                    for m in &sd.members {
+                        match m {
+                            ast::StructEntry::Variable(v) => {
+                                let ty = ty_of(&v.ty, &self.consts);
+                                let attrs: Vec<Attr> = v.attributes.iter().map(|a| attr_of(a, &self.consts)).collect();
+                                for def in &v.defs {
+                                    if let Some(info) = declarator_info(&def.declarator, &self.consts) {
+                                        let mut all = attrs.clone();
+                                        all.extend(info.attrs.iter().cloned());
+                                        self.structs[index].fields.push(Field {
+                                            name: info.name,
+                                            ty: ty.clone(),
+                                            array: array_len(&info.dims),
+                                            reference: info.reference,
+                                            attrs: all,
+                                        });
+                                    }
+                                }
+                            }
+                            ast::StructEntry::Method(f) => {
+                                let fi = self.collect_function(f, ns, Some(index));
+                                self.structs[index].methods.push(fi);
+                            }
+                        }
+                    }
+                }
+                ast::RootDefinition::Enum(e) => {
+                    self.declare(ns, &e.name.node, Sym::Type(None));
+                    for v in &e.values {
+                        self.declare(ns, &v.name.node, Sym::Other);
+                    }
+                }
+                ast::RootDefinition::Typedef(t) => {
+                    if let Some(info) = declarator_info(&t.declarator, &self.consts) {
+                        self.declare(ns, &info.name, Sym::Type(None));
+                    }
+                }
+                ast::RootDefinition::ConstantBuffer(cb) => {
+                    let mut members = Vec::new();
+                    for m in &cb.members {
+                        for def in &m.defs {
+                            if let Some(info) = declarator_info(&def.declarator, &self.consts) {
+                                members.push(info.name);
+                            }
+                        }
+                    }
+                    let index = self.globals.len();
+                    self.globals.push(Global {
+                        name: cb.name.node.clone(),
+                        ns: ns.to_vec(),
+                        ty: Ty {
+                            name: "cbuffer".into(),
+                            ..Ty::default()
+                        },
+                        array: ArrayLen::NotArray,
+                        reference: false,
+                        attrs: cb.attributes.iter().map(|a| attr_of(a, &self.consts)).collect(),
+                        register: register_of(&cb.location_annotations),
+                        storage: Storage::Extern,
+                        init: Init::None,
+                        cbuffer_members: Some(members.clone()),
+                    });
+                    // the name of a cbuffer is not usable in expressions; its members are
+                    for m in members {
+                        self.declare(ns, &m, Sym::CbMember(index));
+                    }
+                }
+                ast::RootDefinition::GlobalVariable(gv) => {
+                    let ty = ty_of(&gv.global_type, &self.consts);
+                    let attrs: Vec<Attr> = gv.attributes.iter().map(|a| attr_of(a, &self.consts)).collect();
+                    let storage = storage_of(&gv.global_type);
+                    for def in &gv.defs {
+                        let Some(info) = declarator_info(&def.declarator, &self.consts) else { continue };
+                        let init = match &def.init {
+                            None => Init::None,
+                            Some(ast::Initializer::StaticSampler(_)) => Init::StaticSampler,
+                            Some(ast::Initializer::Expression(e)) => match &e.node {
+                                ast::Expression::Member(obj, member) => match &obj.node {
+                                    ast::Expression::Identifier(o) => Init::Member(ident_string(o), ident_string(member)),
+                                    _ => Init::Other,
+                                },
+                                _ => Init::Other,
+                            },
+                            Some(_) => Init::Other,
+                        };
+                        // integer constants
+                        if storage == Storage::Static && info.dims.is_empty() && ty.mods.iter().any(|m| m == "const" || m == "constant") {
+                            if let Some(ast::Initializer::Expression(e)) = &def.init {
+                                if let Some(v) = eval_int(&e.node, &self.consts) {
+                                    let entry = self.consts.entry(info.name.clone()).or_insert(Some(v));
+                                    if *entry != Some(v) {
+                                        *entry = None;
+                                    }
+                                }
+                            }
+                        }
+                        let index = self.globals.len();
+                        let mut all = attrs.clone();
+                        all.extend(info.attrs.iter().cloned());
+                        self.globals.push(Global {
+                            name: info.name.clone(),
+                            ns: ns.to_vec(),
+                            ty: ty.clone(),
+                            array: array_len(&info.dims),
+                            reference: info.reference,
+                            attrs: all,
+                            register: register_of(&def.location_annotations),
+                            storage: storage.clone(),
+                            init,
+                            cbuffer_members: None,
+                        });
+                        self.declare(ns, &info.name, Sym::Global(index));
+                    }
+                }
+                ast::RootDefinition::Function(f) => {
+                    let fi = self.collect_function(f, ns, None);
+                    self.declare(ns, &f.name.node, Sym::Func(fi));
+                }
+                ast::RootDefinition::Pipeline(pd) => {
+                    let mut stages = Vec::new();
+                    for prop in &pd.properties {
+                        let stage = match prop.property.node.as_str() {
+                            "VertexShader" => ShaderStage::Vertex,
+                            "PixelShader" => ShaderStage::Pixel,
+                            "ComputeShader" => ShaderStage::Compute,
+                            "TaskShader" => ShaderStage::Task,
+                            "MeshShader" => ShaderStage::Mesh,
+                            _ => continue,
+                        };
+                        if let ast::PipelinePropertyValue::Single(ast::Expression::Identifier(id)) = &prop.value.node {
+                            stages.push((stage, ident_string(id)));
+                        }
+                    }
+                    self.pipelines.push(PipelineDef {
+                        name: pd.name.node.clone(),
+                        stages,
+                    });
+                }
+            }
+        }
+    }
+
+    /// Symbols a (possibly qualified) name denotes when it is written inside namespace `ns`
+    fn lookup(&self, ns: &[String], id: &ast::ScopedIdentifier) -> Option<&Vec<Sym>> {
+        let (last, scopes) = id.identifiers.split_last()?;
+        let scopes: Vec<String> = scopes.iter().map(|s| s.node.clone()).collect();
+        let start = if id.base == ast::ScopedIdentifierBase::Absolute { 0 } else { ns.len() };
+        for k in (0..=start).rev() {
+            let mut path: Vec<String> = ns[..k].to_vec();
+            path.extend(scopes.iter().cloned());
+            if let Some(level) = self.levels.get(&path) {
+                if let Some(syms) = level.get(&last.node) {
+                    return Some(syms);
+                }
+            }
+        }
+        None
+    }
+}
+
+// =====================================================================================================
+// 2. Reachability over the source program: which globals can the entry points of a pipeline reach?
+//    `must` = certainly (scoping resolved, unique callee), `may` = possibly (any mention by name)
+// =====================================================================================================
+
+#[derive(Default, Clone)]
+struct LocalUse {
+    may_globals: BTreeSet<usize>,
+    must_globals: BTreeSet<usize>,
+    may_calls: BTreeSet<usize>,
+    must_calls: BTreeSet<usize>,
+}
+
+struct Walker<'a> {
+    prog: &'a Prog,
+    func: &'a Func,
+    /// local name -> name of its declared type
+    scopes: Vec<HashMap<String, String>>,
+    out: LocalUse,
+}
+
+impl<'a> Walker<'a> {
+    fn local(&self, name: &str) -> Option<&String> {
+        self.scopes.iter().rev().find_map(|s| s.get(name))
+    }
+
+    fn declare_local(&mut self, name: &str, ty: &str) {
+        if let Some(s) = self.scopes.last_mut() {
+            s.insert(name.to_string(), ty.to_string());
+        }
+    }
+
+    fn may_mention(&mut self, last: &str) {
+        for (i, g) in self.prog.globals.iter().enumerate() {
+            let hit = match &g.cbuffer_members {
+                Some(members) => members.iter().any(|m| m == last),
+                None => g.name == last,
+            };
+            if hit {
+                self.out.may_globals.insert(i);
+            }
+        }
+    }
+
+    fn may_call(&mut self, last: &str) {
+        for (i, f) in self.prog.funcs.iter().enumerate() {
+            if f.name == last {
+                self.out.may_calls.insert(i);
+            }
+        }
+    }
+
+    /// What a name denotes at this point: Err(()) = a local / member (not a global symbol)
+    fn resolve(&self, id: &ast::ScopedIdentifier) -> Result<Option<&'a Vec<Sym>>, ()> {
+        if let Some(name) = id.try_trivial() {
+            if self.local(&name.node).is_some() {
+                return Err(());
+            }
+            if let Some(owner) = self.func.owner {
+                let st = &self.prog.structs[owner];
+                if st.fields.iter().any(|f| f.name == name.node) {
+                    return Err(());
+                }
+            }
+        }
+        Ok(self.prog.lookup(&self.func.ns, id))
+    }
+
+    fn arity_ok(f: &Func, nargs: usize) -> bool {
+        let required = f.params.iter().filter(|p| p.default.is_none()).count();
+        required <= nargs && nargs <= f.params.len()
+    }
+
+    fn mention(&mut self, id: &ast::ScopedIdentifier, must: bool) {
+        let Some(last) = id.identifiers.last() else { return };
+        self.may_mention(&last.node);
+        if !must {
+            return;
+        }
+        if let Ok(Some(syms)) = self.resolve(id) {
+            if syms.len() == 1 {
+                match syms[0] {
+                    Sym::Global(g) | Sym::CbMember(g) => {
+                        self.out.must_globals.insert(g);
+                    }
+                    _ => {}
+                }
+            }
+        }
+    }
+
+    fn call(&mut self, callee: &ast::Expression, nargs: usize, must: bool) {
+        match callee {
+            ast::Expression::Identifier(id) => {
+                let Some(last) = id.identifiers.last() else { return };
+                self.may_call(&last.node);
+                self.may_mention(&last.node);
+                if !must {
+                    return;
+                }
+                // a sibling method called from inside a method
+                if let (Some(name), Some(owner)) = (id.try_trivial(), self.func.owner) {
+                    if self.local(&name.node).is_none() {
+                        let methods: Vec<usize> = self.prog.structs[owner].methods.iter().copied().filter(|m| self.prog.funcs[*m].name == name.node).collect();
+                        if !methods.is_empty() {
+                            let fitting: Vec<usize> = methods.into_iter().filter(|m| Self::arity_ok(&self.prog.funcs[*m], nargs)).collect();
+                            if fitting.len() == 1 {
+                                self.out.must_calls.insert(fitting[0]);
+                            }
+                            return;
+                        }
+                    }
+                }
+                if let Ok(Some(syms)) = self.resolve(id) {
+                    let candidates: Vec<usize> = syms
+                        .iter()
+                        .filter_map(|s| match s {
+                            Sym::Func(f) if Self::arity_ok(&self.prog.funcs[*f], nargs) => Some(*f),
+                            _ => None,
+                        })
+                        .collect();
+                    if candidates.len() == 1 && syms.iter().all(|s| matches!(s, Sym::Func(_))) {
+                        self.out.must_calls.insert(candidates[0]);
+                    }
+                }
+            }
+            ast::Expression::Member(object, method) => {
+                self.expr(&object.node, must);
+                let Some(last) = method.identifiers.last() else { return };
+                self.may_call(&last.node);
+                if !must {
+                    return;
+                }
+                // `local.method()` where the local was declared with a user struct type
+                if let ast::Expression::Identifier(obj) = &object.node {
+                    if let Some(name) = obj.try_trivial() {
+                        if let Some(ty) = self.local(&name.node).cloned() {
+                            let structs: Vec<&StructDef> = self.prog.structs.iter().filter(|s| s.name == ty).collect();
+                            if structs.len() == 1 {
+                                let fitting: Vec<usize> = structs[0]
+                                    .methods
+                                    .iter()
+                                    .copied()
+                                    .filter(|m| self.prog.funcs[*m].name == last.node && Self::arity_ok(&self.prog.funcs[*m], nargs))
+                                    .collect();
+                                if fitting.len() == 1 {
+                                    self.out.must_calls.insert(fitting[0]);
+                                }
+                            }
+                        }
+                    }
+                }
+            }
+            other => self.expr(other, must),
+        }
+    }
+
+    fn eot(&mut self, e: &ast::ExpressionOrType) {
+        match e {
+            ast::ExpressionOrType::Expression(x) | ast::ExpressionOrType::Either(x, _) => self.expr(&x.node, false),
+            ast::ExpressionOrType::Type(_) => {}
+        }
+    }
+
+    fn init(&mut self, i: &ast::Initializer, must: bool) {
+        match i {
+            ast::Initializer::Expression(e) => self.expr(&e.node, must),
+            ast::Initializer::Aggregate(list) => {
+                for x in list {
+                    self.init(x, must);
+                }
+            }
+            ast::Initializer::StaticSampler(_) => {}
+        }
+    }
+
+    fn expr(&mut self, e: &ast::Expression, must: bool) {
+        use ast::Expression as E;
+        match e {
+            E::Literal(_) => {}
+            E::Identifier(id) => self.mention(id, must),
+            E::UnaryOperation(_, x) => self.expr(&x.node, must),
+            E::BinaryOperation(_, a, b) => {
+                self.expr(&a.node, must);
+                self.expr(&b.node, must);
+            }
+            E::TernaryConditional(a, b, c) => {
+                self.expr(&a.node, must);
+                self.expr(&b.node, must);
+                self.expr(&c.node, must);
+            }
+            E::ArraySubscript(a, b) => {
+                self.expr(&a.node, must);
+                self.expr(&b.node, must);
+            }
+            E::Member(object, _) => self.expr(&object.node, must),
+            E::Call(callee, targs, args) => {
+                self.call(&callee.node, args.len(), must);
+                for t in targs {
+                    self.eot(t);
+                }
+                for a in args {
+                    self.expr(&a.node, must);
+                }
+            }
+            E::Cast(_, x) => self.expr(&x.node, must),
+            E::BracedInit(_, inits) => {
+                for i in inits {
+                    self.init(i, must);
+                }
+            }
+            // not evaluated: a mention at most
+            E::SizeOf(x) => self.eot(x),
+            E::AmbiguousParseBranch(branches) => {
+                for b in branches {
+                    self.expr(&b.expr.node, false);
+                }
+            }
+        }
+    }
+
+    fn vardef(&mut self, vd: &ast::VarDef, must: bool) {
+        let ty = vd.local_type.layout.0.identifiers.last().map(|i| i.node.clone()).unwrap_or_default();
+        for d in &vd.defs {
+            if let Some(i) = &d.init {
+                self.init(i, must);
+            }
+            if let Some(info) = declarator_info(&d.declarator, &self.prog.consts) {
+                self.declare_local(&info.name, &ty);
+            }
+        }
+    }
+
+    fn block(&mut self, stmts: &[ast::Statement], must: bool) {
+        self.scopes.push(HashMap::new());
+        for s in stmts {
+            self.stmt(s, must);
+        }
+        self.scopes.pop();
+    }
+
+    fn stmt(&mut self, s: &ast::Statement, must: bool) {
+        use ast::StatementKind as K;
+        match &s.kind {
+            K::Empty | K::Break | K::Continue | K::Discard => {}
+            K::Expression(e) => self.expr(e, must),
+            K::Var(vd) => self.vardef(vd, must),
+            K::AmbiguousDeclarationOrExpression(vd, e) => {
+                // language rule: it is a declaration when the specifier names a type
+                let id = &vd.local_type.layout.0;
+                let names_value = match self.resolve(id) {
+                    Err(()) => true,
+                    Ok(Some(syms)) => !syms.is_empty() && syms.iter().all(|s| matches!(s, Sym::Global(_) | Sym::CbMember(_) | Sym::Func(_) | Sym::Other)),
+                    Ok(None) => false,
+                };
+                let names_type = matches!(self.resolve(id), Ok(Some(syms)) if !syms.is_empty() && syms.iter().all(|s| matches!(s, Sym::Type(_))));
+                if names_value {
+                    self.expr(e, must);
+                } else if names_type {
+                    self.vardef(vd, must);
+                } else {
+                    self.expr(e, false);
+                    self.vardef(vd, false);
+                }
+            }
+            K::Block(stmts) => self.block(stmts, must),
+            K::If(c, t) => {
+                self.expr(&c.node, must);
+                self.block(std::slice::from_ref(t), must);
+            }
+            K::IfElse(c, t, f) => {
+                self.expr(&c.node, must);
+                self.block(std::slice::from_ref(t), must);
+                self.block(std::slice::from_ref(f), must);
+            }
+            K::For(init, cond, inc, body) => {
+                self.scopes.push(HashMap::new());
+                match init {
+                    ast::InitStatement::Empty => {}
+                    ast::InitStatement::Expression(e) => self.expr(&e.node, must),
+                    ast::InitStatement::Declaration(vd) => self.vardef(vd, must),
+                }
+                if let Some(c) = cond {
+                    self.expr(&c.node, must);
+                }
+                if let Some(i) = inc {
+                    self.expr(&i.node, must);
+                }
+                self.block(std::slice::from_ref(body), must);
+                self.scopes.pop();
+            }
+            K::While(c, b) => {
+                self.expr(&c.node, must);
+                self.block(std::slice::from_ref(b), must);
+            }
+            K::DoWhile(b, c) => {
+                self.block(std::slice::from_ref(b), must);
+                self.expr(&c.node, must);
+            }
+            K::Switch(c, b) => {
+                self.expr(&c.node, must);
+                self.block(std::slice::from_ref(b), must);
+            }
+            K::Return(e) => {
+                if let Some(e) = e {
+                    self.expr(&e.node, must);
+                }
+            }
+            K::CaseLabel(e, b) => {
+                self.expr(&e.node, false);
+                self.stmt(b, must);
+            }
+            K::DefaultLabel(b) => self.stmt(b, must),
+        }
+    }
+}
+
+struct Reach {
+    may: BTreeSet<usize>,
+    must: BTreeSet<usize>,
+}
+
+fn local_use(prog: &Prog, fi: usize) -> LocalUse {
+    let func = &prog.funcs[fi];
+    let mut w = Walker {
+        prog,
+        func,
+        scopes: vec![HashMap::new()],
+        out: LocalUse::default(),
+    };
+    for p in &func.params {
+        if let Some(d) = &p.default {
+            // evaluated at the call site when the argument is omitted: a possible use only
+            w.expr(d, false);
+        }
+    }
+    for p in &func.params {
+        if let Some(n) = &p.name {
+            w.declare_local(n, &p.ty.name);
+        }
+    }
+    if let Some(body) = &func.body {
+        let body = body.clone();
+        w.block(&body, true);
+    }
+    w.out
+}
+
+fn reach(prog: &Prog, entries: &[usize]) -> Reach {
+    let uses: Vec<LocalUse> = (0..prog.funcs.len()).map(|f| local_use(prog, f)).collect();
+    let close = |may: bool| -> BTreeSet<usize> {
+        let mut seen: BTreeSet<usize> = BTreeSet::new();
+        let mut stack: Vec<usize> = entries.to_vec();
+        let mut globals = BTreeSet::new();
+        while let Some(f) = stack.pop() {
+            if !seen.insert(f) {
+                continue;
+            }
+            let u = &uses[f];
+            globals.extend(if may { u.may_globals.iter() } else { u.must_globals.iter() });
+            stack.extend(if may { u.may_calls.iter() } else { u.must_calls.iter() });
+        }
+        globals
+    };
+    Reach {
+        may: close(true),
+        must: close(false),
+    }
+}
+
+// =====================================================================================================
+// 3. Tables (written from the doc comments of DescriptorType, the HLSL register classes, Metal's types)
+// =====================================================================================================
+
+/// Descriptor types a declaration of this HLSL type can stand for. BufferAddress is documented as "raw buffer
+/// address or ByteBuffer if raw addresses are disabled": a ByteAddressBuffer in the emitted text may be either.
+fn hlsl_type_descriptors(ty: &str) -> Option<&'static [DT]> {
+    Some(match ty {
+        "cbuffer" | "ConstantBuffer" => &[DT::ConstantBuffer],
+        "ByteAddressBuffer" => &[DT::ByteBuffer, DT::BufferAddress],
+        "RWByteAddressBuffer" => &[DT::RwByteBuffer, DT::RwBufferAddress],
+        "StructuredBuffer" => &[DT::StructuredBuffer],
+        "RWStructuredBuffer" => &[DT::RwStructuredBuffer],
+        "Buffer" => &[DT::TexelBuffer],
+        "RWBuffer" => &[DT::RwTexelBuffer],
+        "Texture2D" => &[DT::Texture2d],
+        "Texture2DArray" => &[DT::Texture2dArray],
+        "RWTexture2D" => &[DT::RwTexture2d],
+        "RWTexture2DArray" => &[DT::RwTexture2dArray],
+        "TextureCube" => &[DT::TextureCube],
+        "TextureCubeArray" => &[DT::TextureCubeArray],
+        "Texture3D" => &[DT::Texture3d],
+        "RWTexture3D" => &[DT::RwTexture3d],
+        "RaytracingAccelerationStructure" => &[DT::RaytracingAccelerationStructure],
+        "SamplerState" => &[DT::SamplerState],
+        "SamplerComparisonState" => &[DT::SamplerComparisonState],
+        _ => return None,
+    })
+}
+
+/// The descriptor type of a resource as declared in the SOURCE program (exact)
+fn source_type_descriptor(ty: &str) -> Option<DT> {
+    Some(match ty {
+        "BufferAddress" => DT::BufferAddress,
+        "RWBufferAddress" => DT::RwBufferAddress,
+        "ByteAddressBuffer" => DT::ByteBuffer,
+        "RWByteAddressBuffer" => DT::RwByteBuffer,
+        other => {
+            let set = hlsl_type_descriptors(other)?;
+            if set.len() != 1 {
+                return None;
+            }
+            set[0]
+        }
+    })
+}
+
+/// HLSL register class of a descriptor type: b = constant buffers, s = samplers, u = unordered access views,
+/// t = shader resource views
+fn register_class(dt: DT) -> Option<char> {
+    Some(match dt {
+        DT::ConstantBuffer => 'b',
+        DT::SamplerState | DT::SamplerComparisonState => 's',
+        DT::RwByteBuffer | DT::RwBufferAddress | DT::RwStructuredBuffer | DT::RwTexelBuffer | DT::RwTexture2d | DT::RwTexture2dArray | DT::RwTexture3d => 'u',
+        DT::ByteBuffer
+        | DT::BufferAddress
+        | DT::StructuredBuffer
+        | DT::TexelBuffer
+        | DT::Texture2d
+        | DT::Texture2dArray
+        | DT::TextureCube
+        | DT::TextureCubeArray
+        | DT::Texture3d
+        | DT::RaytracingAccelerationStructure => 't',
+        DT::PushConstants | DT::InlineConstants => return None,
+    })
+}
+
+/// Descriptor types an argument buffer member of this Metal type can stand for
+fn msl_type_descriptors(ty: &Ty, reference: bool) -> Option<Vec<DT>> {
+    if reference {
+        // `constant T& name`: a pointer to constant data
+        return if ty.mods.iter().any(|m| m == "constant") { Some(vec![DT::ConstantBuffer]) } else { None };
+    }
+    let read_write = ty.args.iter().any(|a| matches!(a, TArg::Ty(t) if t.name.ends_with("access::read_write") || t.name.ends_with("access::write")));
+    let pick = |ro: DT, rw: DT| Some(vec![if read_write { rw } else { ro }]);
+    match ty.name.as_str() {
+        "metal::texture2d" => pick(DT::Texture2d, DT::RwTexture2d),
+        "metal::texture2d_array" => pick(DT::Texture2dArray, DT::RwTexture2dArray),
+        "metal::texture3d" => pick(DT::Texture3d, DT::RwTexture3d),
+        "metal::texture_buffer" => pick(DT::TexelBuffer, DT::RwTexelBuffer),
+        "metal::texturecube" if !read_write => Some(vec![DT::TextureCube]),
+        "metal::texturecube_array" if !read_write => Some(vec![DT::TextureCubeArray]),
+        "metal::sampler" => Some(vec![DT::SamplerState, DT::SamplerComparisonState]),
+        "helper::ByteAddressBuffer" => Some(vec![DT::ByteBuffer, DT::BufferAddress]),
+        "helper::RWByteAddressBuffer" => Some(vec![DT::RwByteBuffer, DT::RwBufferAddress]),
+        "helper::StructuredBuffer" => Some(vec![DT::StructuredBuffer]),
+        "helper::RWStructuredBuffer" => Some(vec![DT::RwStructuredBuffer]),
+        "metal::raytracing::instance_acceleration_structure" | "metal::raytracing::acceleration_structure" => Some(vec![DT::RaytracingAccelerationStructure]),
+        _ => None,
+    }
+}
+
+// =====================================================================================================
+// 4. Externally bound declarations of the emitted program
+// =====================================================================================================
+
+#[derive(Clone, Debug, PartialEq)]
+enum Loc {
+    Index(u32),
+    Inline(u32),
+    /// the declaration carries no (complete) annotation
+    Missing,
+}
+
+#[derive(Clone, Debug)]
+struct Bound {
+    name: String,
+    group: u32,
+    loc: Loc,
+    /// register letter (DirectX)
+    letter: Option<char>,
+    /// declared type as written (for messages)
+    ty_text: String,
+    /// None = the monitor's tables do not know the type
+    allowed: Option<Vec<DT>>,
+    array: ArrayLen,
+}
+
+#[derive(Clone, Debug)]
+struct InlineBlock {
+    global: String,
+    group: u32,
+    slot: Option<u32>,
+    fields: usize,
+}
+
+struct Emitted {
+    bound: Vec<Bound>,
+    inline_blocks: Vec<InlineBlock>,
+    /// things seen but not bound (for the evidence)
+    unbound_plain: usize,
+}
+
+fn ty_text(ty: &Ty) -> String {
+    let mut s = String::new();
+    for m in &ty.mods {
+        s.push_str(m);
+        s.push(' ');
+    }
+    s.push_str(&ty.name);
+    if !ty.args.is_empty() {
+        s.push('<');
+        for (i, a) in ty.args.iter().enumerate() {
+            if i > 0 {
+                s.push_str(", ");
+            }
+            match a {
+                TArg::Ty(t) => s.push_str(&ty_text(t)),
+                TArg::Int(v) => s.push_str(&v.to_string()),
+                TArg::Other => s.push('?'),
+            }
+        }
+        s.push('>');
+    }
+    s
+}
+
+fn u32_of(v: Option<i64>) -> Option<u32> {
+    v.and_then(|v| u32::try_from(v).ok())
+}
+
+fn hlsl_emitted(prog: &Prog, vulkan: bool) -> Emitted {
+    let mut out = Emitted {
+        bound: Vec::new(),
+        inline_blocks: Vec::new(),
+        unbound_plain: 0,
+    };
+    // structs all of whose members carry [[vk::offset(n)]]: blocks of inline constants
+    let inline_struct = |name: &str| -> Option<&StructDef> {
+        let mut found = prog.structs.iter().filter(|s| s.name == name && !s.fields.is_empty() && s.fields.iter().all(|f| find_attr(&f.attrs, "vk::offset").is_some()));
+        let first = found.next()?;
+        if found.next().is_some() {
+            return None;
+        }
+        Some(first)
+    };
+    for g in &prog.globals {
+        if g.storage != Storage::Extern {
+            continue;
+        }
+        let binding = find_attr(&g.attrs, "vk::binding");
+        let known = hlsl_type_descriptors(&g.ty.name);
+        let annotated = g.register.is_some() || binding.is_some();
+        if known.is_none() && !annotated {
+            // `uint g_x;`: lives in the implicit globals block, rssl assigns no binding to those
+            out.unbound_plain += 1;
+            continue;
+        }
+        let (group, loc, letter) = if vulkan {
+            match binding {
+                Some(a) => match (a.args.first().copied().flatten(), a.args.get(1).copied().flatten()) {
+                    (Some(i), set) if a.args.len() <= 2 && (a.args.len() == 1 || set.is_some()) => match (u32::try_from(i), u32::try_from(set.unwrap_or(0))) {
+                        (Ok(i), Ok(s)) => (s, Loc::Index(i), None),
+                        _ => (0, Loc::Missing, None),
+                    },
+                    _ => (0, Loc::Missing, None),
+                },
+                None => (0, Loc::Missing, None),
+            }
+        } else {
+            match &g.register {
+                Some((Some((letter, index)), space)) => (space.unwrap_or(0), Loc::Index(*index), Some(*letter)),
+                Some((None, space)) => (space.unwrap_or(0), Loc::Missing, None),
+                None => (0, Loc::Missing, None),
+            }
+        };
+        // the block of inline constants itself is described by BindGroup::inline_constants
+        if g.ty.name == "ConstantBuffer" {
+            if let Some(TArg::Ty(inner)) = g.ty.args.first() {
+                if let Some(st) = inline_struct(&inner.name) {
+                    out.inline_blocks.push(InlineBlock {
+                        global: g.name.clone(),
+                        group,
+                        slot: match loc {
+                            Loc::Index(i) => Some(i),
+                            _ => None,
+                        },
+                        fields: st.fields.len(),
+                    });
+                    for f in &st.fields {
+                        let offset = find_attr(&f.attrs, "vk::offset").and_then(|a| u32_of(a.args.first().copied().flatten()));
+                        out.bound.push(Bound {
+                            name: f.name.clone(),
+                            group,
+                            loc: offset.map(Loc::Inline).unwrap_or(Loc::Missing),
+                            letter: None,
+                            ty_text: format!("[[vk::offset]] {}", ty_text(&f.ty)),
+                            // a 64 bit address in the block of inline constants
+                            allowed: if f.ty.name == "uint64_t" { Some(vec![DT::BufferAddress, DT::RwBufferAddress]) } else { None },
+                            array: f.array.clone(),
+                        });
+                    }
+                    continue;
+                }
+            }
+        }
+        out.bound.push(Bound {
+            name: g.name.clone(),
+            group,
+            loc,
+            letter,
+            ty_text: ty_text(&g.ty),
+            allowed: known.map(|k| k.to_vec()),
+            array: g.array.clone(),
+        });
+    }
+    out
+}
+
+/// (struct name, id, member name) of every `[[id(n)]]` line of the printed Metal text
+fn scan_msl_ids(text: &str) -> Vec<(String, u32, String)> {
+    let mut out = Vec::new();
+    let mut current = String::new();
+    for line in text.lines() {
+        let t = line.trim();
+        if let Some(rest) = t.strip_prefix("struct ") {
+            current = rest.split(|c: char| !(c.is_alphanumeric() || c == '_')).next().unwrap_or("").to_string();
+        }
+        let Some(pos) = t.find("[[id(") else { continue };
+        let digits: String = t[pos + 5..].chars().take_while(|c| c.is_ascii_digit()).collect();
+        let Ok(id) = digits.parse::<u32>() else { continue };
+        // `... name;` or `... name[3];`
+        let mut rest = t.trim_end_matches(';').trim_end();
+        while rest.ends_with(']') {
+            match rest.rfind('[') {
+                Some(i) => rest = rest[..i].trim_end(),
+                None => break,
+            }
+        }
+        let name: String = rest.chars().rev().take_while(|c| c.is_alphanumeric() || *c == '_').collect::<Vec<_>>().into_iter().rev().collect();
+        if !name.is_empty() {
+            out.push((current.clone(), id, name));
+        }
+    }
+    out
+}
+
+fn trailing_number(s: &str) -> Option<(String, u32)> {
+    let digits: String = s.chars().rev().take_while(|c| c.is_ascii_digit()).collect::<Vec<_>>().into_iter().rev().collect();
+    if digits.is_empty() || digits.len() == s.len() {
+        return None;
+    }
+    Some((s[..s.len() - digits.len()].to_string(), digits.parse().ok()?))
+}
+
+/// `X` was renamed to `X_<n>`
+fn is_renamed(original: &str, emitted: &str) -> bool {
+    match emitted.strip_prefix(original).and_then(|r| r.strip_prefix('_')) {
+        Some(d) => !d.is_empty() && d.chars().all(|c| c.is_ascii_digit()),
+        None => false,
+    }
+}
+
+fn msl_emitted(prog: &Prog, text: &str, report: &mut Report) -> Emitted {
+    let mut out = Emitted {
+        bound: Vec::new(),
+        inline_blocks: Vec::new(),
+        unbound_plain: 0,
+    };
+    // the printed text decides names and ids; the tree supplies the types
+    let scanned = scan_msl_ids(text);
+    let mut tree_triples = Vec::new();
+    for st in &prog.structs {
+        for f in &st.fields {
+            if let Some(a) = find_attr(&f.attrs, "id") {
+                if let Some(id) = u32_of(a.args.first().copied().flatten()) {
+                    tree_triples.push((st.name.clone(), id, f.name.clone()));
+                }
+            }
+        }
+    }
+    let (mut a, mut b) = (scanned.clone(), tree_triples);
+    a.sort();
+    b.sort();
+    report.count(if a == b { "msl:text-scan-agrees-with-tree" } else { "msl:text-scan-differs-from-tree" });
+    for (struct_name, id, member) in scanned {
+        // argument buffer n is bound at [[buffer(n)]]; its struct is called ArgumentBuffer<n>
+        let group = match trailing_number(&struct_name) {
+            Some((_, n)) => n,
+            None => {
+                report.count("skipped:msl-id-member-outside-numbered-struct");
+                continue;
+            }
+        };
+        let field = prog.structs.iter().filter(|s| s.name == struct_name).flat_map(|s| s.fields.iter()).find(|f| f.name == member);
+        let (allowed, array, text_ty) = match field {
+            Some(f) => {
+                // metal::array<T, N>
+                if f.ty.name == "metal::array" {
+                    match (f.ty.args.first(), f.ty.args.get(1)) {
+                        (Some(TArg::Ty(inner)), Some(TArg::Int(n))) if *n >= 0 => (msl_type_descriptors(inner, false), ArrayLen::Sized(*n as u64), ty_text(&f.ty)),
+                        _ => (None, ArrayLen::Unknown, ty_text(&f.ty)),
+                    }
+                } else {
+                    (msl_type_descriptors(&f.ty, f.reference), f.array.clone(), format!("{}{}", ty_text(&f.ty), if f.reference { "&" } else { "" }))
+                }
+            }
+            None => (None, ArrayLen::Unknown, "?".to_string()),
+        };
+        out.bound.push(Bound {
+            name: member,
+            group,
+            loc: Loc::Index(id),
+            letter: None,
+            ty_text: text_ty,
+            allowed,
+            array,
+        });
+    }
+    out
+}
+
+// =====================================================================================================
+// 5. The monitor proper: one returned pipeline against its emitted source and the source program
+// =====================================================================================================
+
+struct Finding {
+    signature: String,
+    summary: String,
+    detail: Json,
+}
+
+enum PipeId<'a> {
+    /// no-pipeline mode: there are no entry points
+    NoPipeline,
+    Known(&'a PipelineDef),
+    Unknown,
+}
+
+fn dt_name(dt: DT) -> String {
+    format!("{:?}", dt)
+}
+
+fn match_source(src: &Prog, name: &str) -> Option<usize> {
+    let bindable = |g: &Global| g.storage == Storage::Extern && (g.cbuffer_members.is_some() || hlsl_type_descriptors(&g.ty.name).is_some() || source_type_descriptor(&g.ty.name).is_some());
+    let exact: Vec<usize> = src.globals.iter().enumerate().filter(|(_, g)| bindable(g) && g.name == name).map(|(i, _)| i).collect();
+    if exact.len() == 1 {
+        return Some(exact[0]);
+    }
+    if !exact.is_empty() {
+        return None;
+    }
+    let renamed: Vec<usize> = src.globals.iter().enumerate().filter(|(_, g)| bindable(g) && is_renamed(&g.name, name)).map(|(i, _)| i).collect();
+    if renamed.len() == 1 {
+        Some(renamed[0])
+    } else {
+        None
+    }
+}
+
+fn expected_count(a: &ArrayLen) -> Option<Option<u32>> {
+    match a {
+        ArrayLen::NotArray => Some(Some(1)),
+        ArrayLen::Sized(n) => u32::try_from(*n).ok().map(Some),
+        ArrayLen::Unsized => Some(None),
+        ArrayLen::Unknown => None,
+    }
+}
+
+fn numthreads_of(f: &Func, consts: &Consts) -> Option<Result<(u32, u32, u32), ()>> {
+    let a = find_attr(&f.attrs, "numthreads")?;
+    if a.raw.len() != 3 {
+        return Some(Err(()));
+    }
+    let v: Vec<Option<u32>> = a.raw.iter().map(|e| u32_of(eval_int(e, consts))).collect();
+    match (v[0], v[1], v[2]) {
+        (Some(x), Some(y), Some(z)) => Some(Ok((x, y, z))),
+        _ => Some(Err(())),
+    }
+}
+
+fn examine_pipe(tgt: Tgt, pipe: &Pipe, src: Option<&Prog>, id: &PipeId, report: &mut Report) -> (Vec<Finding>, u64) {
+    let mut findings: Vec<Finding> = Vec::new();
+    let prefix = if tgt.is_hlsl() { "hlsl" } else { "msl" };
+    let mut compared: u64 = 0;
+
+    // ---- read the emitted program ---------------------------------------------------------------
+    let tree_prog = pipe.tree.as_ref().map(Prog::collect);
+    let (eprog, emitted) = if tgt.is_hlsl() {
+        let vulkan = !matches!(tgt, Tgt::Dx);
+        let text_prog = match rs::parse_text(&pipe.source) {
+            rs::Front::Ok(m) => Some(Prog::collect(&m)),
+            rs::Front::Diag(_) => {
+                report.count("hlsl:emitted-text-not-parsed(diagnostic; C04's business) - tree used");
+                None
+            }
+            rs::Front::Panic(_) => {
+                report.count("hlsl:emitted-text-not-parsed(panic; C04's business) - tree used");
+                None
+            }
+        };
+        if let (Some(a), Some(b)) = (&text_prog, &tree_prog) {
+            let (ea, eb) = (hlsl_emitted(a, vulkan), hlsl_emitted(b, vulkan));
+            let same = format!("{:?}{:?}", ea.bound, ea.inline_blocks) == format!("{:?}{:?}", eb.bound, eb.inline_blocks);
+            report.count(if same { "hlsl:parsed-text-agrees-with-tree" } else { "hlsl:parsed-text-differs-from-tree" });
+        }
+        let Some(p) = text_prog.or(tree_prog) else {
+            report.count("skipped:no-emitted-program");
+            return (findings, 0);
+        };
+        let e = hlsl_emitted(&p, vulkan);
+        (p, e)
+    } else {
+        let Some(p) = tree_prog else {
+            report.count("skipped:no-msl-tree");
+            return (findings, 0);
+        };
+        let e = msl_emitted(&p, &pipe.source, report);
+        (p, e)
+    };
+    let mut add = |what: &str, summary: String, detail: Json| {
+        findings.push(Finding {
+            signature: format!("{}:{}", prefix, what),
+            summary,
+            detail,
+        });
+    };
+    report.count_n("emitted:bound-declarations", emitted.bound.len() as u64);
+    report.count_n("emitted:plain-extern-globals-without-binding", emitted.unbound_plain as u64);
+
+    // ---- bijection between metadata entries and bound declarations ------------------------------
+    let mut described = vec![0u32; emitted.bound.len()];
+    let groups = &pipe.metadata.bind_groups;
+    // Documented by rssl (CompileArgs::no_pipeline_mode: "generating output without the pipeline boilerplate ... can be used
+    // to extract bindings information"): on Metal the argument buffer structs are part of the entry point boilerplate and are
+    // not emitted without a pipeline. There is then no declaration to compare the metadata with; only the comparison with the
+    // source program (type, count, bindless flag, nothing used) remains.
+    let boilerplate_omitted = !tgt.is_hlsl() && matches!(id, PipeId::NoPipeline) && emitted.bound.is_empty();
+    if boilerplate_omitted {
+        report.count("msl:no_pipeline-mode-emits-no-argument-buffers(documented) - metadata compared with the source program only");
+    }
+    for (g, group) in groups.iter().enumerate() {
+        let g = g as u32;
+        for m in &group.bindings {
+            if boilerplate_omitted {
+                if let Some(src) = src {
+                    if let Some(si) = match_source(src, &m.name) {
+                        let sg = &src.globals[si];
+                        let dj = || Json::obj().set("group", g).set("binding", format!("{:?}", m));
+                        let bindless = find_attr(&sg.attrs, "rssl::bindless").is_some();
+                        if bindless != m.is_bindless {
+                            add("bindless-flag-mismatch", format!("`{}`: is_bindless = {} disagrees with the source declaration", m.name, m.is_bindless), dj());
+                        }
+                        let sdt = if sg.cbuffer_members.is_some() { Some(DT::ConstantBuffer) } else { source_type_descriptor(&sg.ty.name) };
+                        if sdt.is_some() && sdt != Some(m.descriptor_type) {
+                            add("descriptor-type-mismatch:source", format!("`{}` is a `{}` in the source program but reported as {}", m.name, ty_text(&sg.ty), dt_name(m.descriptor_type)), dj());
+                        }
+                        if let Some(c) = expected_count(&sg.array) {
+                            if c != m.descriptor_count {
+                                add("descriptor-count-mismatch:source", format!("`{}`: source declares {:?}, metadata descriptor_count {:?}", m.name, sg.array, m.descriptor_count), dj());
+                            }
+                        }
+                        report.count("source:declaration-matched(no emitted declaration)");
+                    }
+                }
+                continue;
+            }
+            report.count(&format!("metadata:{}:{}", prefix, dt_name(m.descriptor_type)));
+            let want = match m.api_binding {
+                ApiLocation::Index(i) => Loc::Index(i),
+                ApiLocation::InlineConstant(o) => Loc::Inline(o),
+            };
+            let by_name: Vec<usize> = (0..emitted.bound.len()).filter(|i| emitted.bound[*i].name == m.name).collect();
+            let mut renamed = false;
+            let chosen = match by_name.len() {
+                0 => {
+                    let at = (0..emitted.bound.len()).find(|i| {
+                        let d = &emitted.bound[*i];
+                        d.group == g && d.loc == want && is_renamed(&m.name, &d.name)
+                    });
+                    renamed = at.is_some();
+                    at
+                }
+                1 => Some(by_name[0]),
+                _ => {
+                    report.count("metadata:name-declared-more-than-once(namespaces)");
+                    by_name.iter().copied().find(|i| emitted.bound[*i].group == g && emitted.bound[*i].loc == want).or(Some(by_name[0]))
+                }
+            };
+            let describe = || Json::obj().set("group", g).set("binding", format!("{:?}", m));
+            let Some(i) = chosen else {
+                add(
+                    "binding-without-declaration",
+                    format!("metadata describes `{}` (group {}, {:?}) but the emitted source declares no bound `{}`", m.name, g, m.api_binding, m.name),
+                    describe(),
+                );
+                continue;
+            };
+            let d = &emitted.bound[i];
+            described[i] += 1;
+            compared += 1;
+            if renamed {
+                add(
+                    "binding-name-not-declared:renamed-reserved-name",
+                    format!("metadata calls the binding at group {} {:?} `{}`, the emitted source declares it as `{}`", g, m.api_binding, m.name, d.name),
+                    describe().set("declared_as", d.name.as_str()),
+                );
+            }
+            let dj = || describe().set("declaration", format!("{:?}", d));
+            if d.loc == Loc::Missing {
+                add(
+                    "declaration-without-annotation",
+                    format!("`{}` is described by the metadata but carries no binding annotation in the emitted source", d.name),
+                    dj(),
+                );
+            } else {
+                if d.group != g {
+                    add("group-mismatch", format!("`{}`: metadata bind group {} but the emitted annotation says {}", m.name, g, d.group), dj());
+                }
+                if d.loc != want {
+                    let what = match (&d.loc, &want) {
+                        (Loc::Index(_), Loc::Index(_)) => "slot-mismatch",
+                        (Loc::Inline(_), Loc::Inline(_)) => "inline-offset-mismatch",
+                        _ => "location-kind-mismatch",
+                    };
+                    add(what, format!("`{}`: metadata says {:?}, the emitted source says {:?}", m.name, want, d.loc), dj());
+                }
+            }
+            match &d.allowed {
+                Some(allowed) => {
+                    if !allowed.contains(&m.descriptor_type) {
+                        add(
+                            "descriptor-type-mismatch",
+                            format!("`{}` is declared as `{}` but reported as {}", m.name, d.ty_text, dt_name(m.descriptor_type)),
+                            dj(),
+                        );
+                    }
+                }
+                None => report.count(&format!("skipped:emitted-type-not-in-table:{}", d.ty_text.split('<').next().unwrap_or(""))),
+            }
+            if let (Some(letter), Some(class)) = (d.letter, register_class(m.descriptor_type)) {
+                if letter != class {
+                    add(
+                        "register-class-mismatch",
+                        format!("`{}` is reported as {} but bound to a `{}` register", m.name, dt_name(m.descriptor_type), letter),
+                        dj(),
+                    );
+                }
+            }
+            match expected_count(&d.array) {
+                Some(c) => {
+                    if c != m.descriptor_count {
+                        add(
+                            "descriptor-count-mismatch",
+                            format!("`{}`: declared {:?}, metadata descriptor_count {:?}", m.name, d.array, m.descriptor_count),
+                            dj(),
+                        );
+                    }
+                }
+                None => report.count("skipped:array-length-not-evaluated"),
+            }
+            // against the source program
+            if let Some(src) = src {
+                match match_source(src, &m.name) {
+                    Some(si) => {
+                        let sg = &src.globals[si];
+                        report.count("source:declaration-matched");
+                        let bindless = find_attr(&sg.attrs, "rssl::bindless").is_some();
+                        if bindless != m.is_bindless {
+                            add(
+                                "bindless-flag-mismatch",
+                                format!("`{}`: is_bindless = {} but the source declaration {} [[rssl::bindless]]", m.name, m.is_bindless, if bindless { "has" } else { "has no" }),
+                                dj(),
+                            );
+                        }
+                        if bindless {
+                            report.count("source:bindless-compared");
+                        }
+                        let sdt = if sg.cbuffer_members.is_some() { Some(DT::ConstantBuffer) } else { source_type_descriptor(&sg.ty.name) };
+                        if let Some(sdt) = sdt {
+                            if sdt != m.descriptor_type {
+                                add(
+                                    "descriptor-type-mismatch:source",
+                                    format!("`{}` is a `{}` in the source program but reported as {}", m.name, ty_text(&sg.ty), dt_name(m.descriptor_type)),
+                                    dj(),
+                                );
+                            }
+                        }
+                        if let Some(c) = expected_count(&sg.array) {
+                            if c != m.descriptor_count {
+                                add(
+                                    "descriptor-count-mismatch:source",
+                                    format!("`{}`: source declares {:?}, metadata descriptor_count {:?}", m.name, sg.array, m.descriptor_count),
+                                    dj(),
+                                );
+                            }
+                        }
+                    }
+                    None => report.count("skipped:source-declaration-not-identified"),
+                }
+            }
+        }
+    }
+    for (i, d) in emitted.bound.iter().enumerate() {
+        if described[i] == 0 {
+            let what = if d.loc == Loc::Missing && d.array == ArrayLen::Unsized {
+                "declaration-without-binding:unsized-array-without-annotation"
+            } else if d.loc == Loc::Missing {
+                "declaration-without-binding:no-annotation"
+            } else {
+                "declaration-without-binding"
+            };
+            add(
+                what,
+                format!("the emitted source declares the externally bound `{} {}` ({:?}, group {}) but no metadata entry describes it", d.ty_text, d.name, d.loc, d.group),
+                Json::obj().set("declaration", format!("{:?}", d)),
+            );
+        } else if described[i] > 1 {
+            add(
+                "declaration-described-twice",
+                format!("`{}` is described by {} metadata entries", d.name, described[i]),
+                Json::obj().set("declaration", format!("{:?}", d)),
+            );
+        }
+    }
+
+    // ---- the block of inline constants ----------------------------------------------------------
+    let ngroups = groups.len().max(emitted.inline_blocks.iter().map(|b| b.group as usize + 1).max().unwrap_or(0));
+    for g in 0..ngroups {
+        let meta = groups.get(g).and_then(|x| x.inline_constants.as_ref());
+        let offsets: Vec<u32> = groups
+            .get(g)
+            .map(|x| {
+                x.bindings
+                    .iter()
+                    .filter_map(|b| match b.api_binding {
+                        ApiLocation::InlineConstant(o) => Some(o),
+                        _ => None,
+                    })
+                    .collect()
+            })
+            .unwrap_or_default();
+        let blocks: Vec<&InlineBlock> = emitted.inline_blocks.iter().filter(|b| b.group as usize == g).collect();
+        let detail = || Json::obj().set("group", g).set("metadata", format!("{:?}", meta)).set("emitted_blocks", format!("{:?}", blocks)).set("offsets", format!("{:?}", offsets));
+        match (meta, blocks.first()) {
+            (None, None) => {
+                if !offsets.is_empty() {
+                    add("inline-constants-missing", format!("group {} has inline-constant bindings but no inline constant block", g), detail());
+                }
+            }
+            (Some(_), None) => add("inline-constants-without-declaration", format!("group {} reports an inline constant block the emitted source does not declare", g), detail()),
+            (None, Some(b)) => add("inline-block-without-metadata", format!("the emitted source declares the inline constant block `{}` for group {} but the metadata reports none", b.global, g), detail()),
+            (Some(ic), Some(b)) => {
+                report.count("inline-constants:compared");
+                if b.slot != Some(ic.api_location) {
+                    add("inline-constants-slot-mismatch", format!("group {}: block reported at slot {} but declared at {:?}", g, ic.api_location, b.slot), detail());
+                }
+                // one 64 bit address per buffer address binding
+                if ic.size_in_bytes as usize != 8 * offsets.len() || ic.size_in_bytes as usize != 8 * b.fields {
+                    add(
+                        "inline-constants-size-mismatch",
+                        format!("group {}: size_in_bytes {} with {} address bindings and {} declared members", g, ic.size_in_bytes, offsets.len(), b.fields),
+                        detail(),
+                    );
+                }
+                let mut sorted = offsets.clone();
+                sorted.sort();
+                sorted.dedup();
+                if sorted.len() != offsets.len() || offsets.iter().any(|o| o % 8 != 0 || o + 8 > ic.size_in_bytes) {
+                    add("inline-constants-offset-invalid", format!("group {}: offsets {:?} in a block of {} bytes", g, offsets, ic.size_in_bytes), detail());
+                }
+                if blocks.len() > 1 {
+                    add("inline-block-declared-twice", format!("group {} has {} inline constant blocks", g, blocks.len()), detail());
+                }
+            }
+        }
+    }
+
+    // ---- stages ---------------------------------------------------------------------------------
+    for (si, s) in pipe.stages.iter().enumerate() {
+        report.count(&format!("stage:{}:{:?}", prefix, s.stage));
+        let defined: Vec<&Func> = eprog.funcs.iter().filter(|f| f.owner.is_none() && f.body.is_some() && f.name == s.entry_point).collect();
+        let detail = || Json::obj().set("stage", format!("{:?}", s)).set("functions_defined", Json::from(eprog.funcs.iter().filter(|f| f.body.is_some()).map(|f| f.name.clone()).collect::<Vec<String>>()));
+        let func: &Func = match defined.first() {
+            Some(f) => {
+                if defined.len() > 1 {
+                    report.count("stage:entry-name-defined-more-than-once");
+                }
+                if !f.ns.is_empty() {
+                    report.count("stage:entry-point-inside-namespace");
+                }
+                f
+            }
+            None => {
+                let renamed: Vec<&Func> = eprog.funcs.iter().filter(|f| f.owner.is_none() && f.body.is_some() && is_renamed(&s.entry_point, &f.name)).collect();
+                match renamed.first() {
+                    Some(f) => {
+                        add(
+                            "entry-point-not-defined:renamed-reserved-name",
+                            format!("stage {:?} reports entry point `{}`; the emitted source defines no such function (the exporter renamed it to `{}`)", s.stage, s.entry_point, f.name),
+                            detail().set("renamed_to", f.name.as_str()),
+                        );
+                        f
+                    }
+                    None => {
+                        add(
+                            "entry-point-not-defined",
+                            format!("stage {:?} reports entry point `{}`; the emitted source defines no such function", s.stage, s.entry_point),
+                            detail(),
+                        );
+                        continue;
+                    }
+                }
+            }
+        };
+        if tgt.is_hlsl() {
+            match (s.thread_group_size, numthreads_of(func, &eprog.consts)) {
+                (None, None) => report.count("stage:no-thread-group-size"),
+                (Some(r), Some(Ok(e))) => {
+                    report.count("stage:thread-group-size-compared");
+                    if r != e {
+                        add("thread-group-size-mismatch", format!("`{}`: reported {:?}, emitted [numthreads{:?}]", func.name, r, e), detail());
+                    }
+                }
+                (_, Some(Err(()))) => report.count("skipped:numthreads-not-evaluated"),
+                (Some(r), None) => add("thread-group-size-mismatch", format!("`{}`: reported {:?} but the emitted function has no [numthreads]", func.name, r), detail()),
+                (None, Some(Ok(e))) => add("thread-group-size-mismatch", format!("`{}`: emitted [numthreads{:?}] but no size reported", func.name, e), detail()),
+            }
+        } else {
+            // Metal: the stage is an attribute of the function, the group size [[max_total_threads_per_threadgroup(x * y * z)]]
+            let stage_attr = match s.stage {
+                ShaderStage::Compute => "kernel",
+                ShaderStage::Vertex => "vertex",
+                ShaderStage::Pixel => "fragment",
+                ShaderStage::Mesh => "mesh",
+                ShaderStage::Task => "object",
+            };
+            if find_attr(&func.attrs, stage_attr).is_none() {
+                add("entry-point-stage-attribute-mismatch", format!("`{}` is reported as the {:?} stage but is not declared [[{}]]", func.name, s.stage, stage_attr), detail());
+            }
+            let needle = format!(" {}(", func.name);
+            if !pipe.source.lines().any(|l| !l.starts_with(' ') && l.contains(&needle) && l.trim_end().ends_with('{')) {
+                add("entry-point-not-in-text", format!("the printed text has no definition of `{}`", func.name), detail());
+            }
+            let attr = find_attr(&func.attrs, "max_total_threads_per_threadgroup");
+            match (s.thread_group_size, attr) {
+                (None, None) => report.count("stage:no-thread-group-size"),
+                (Some(r), None) => add("thread-group-size-mismatch", format!("`{}`: reported {:?} but the kernel carries no thread group size", func.name, r), detail()),
+                (None, Some(_)) => add("thread-group-size-mismatch", format!("`{}`: the kernel carries a thread group size but none is reported", func.name), detail()),
+                (Some(r), Some(a)) => {
+                    // (x * y) * z
+                    let mut factors: Option<(u32, u32, u32)> = None;
+                    if let Some(ast::Expression::BinaryOperation(ast::BinOp::Multiply, xy, z)) = a.raw.first() {
+                        if let ast::Expression::BinaryOperation(ast::BinOp::Multiply, x, y) = &xy.node {
+                            if let (Some(x), Some(y), Some(z)) = (u32_of(eval_int(&x.node, &eprog.consts)), u32_of(eval_int(&y.node, &eprog.consts)), u32_of(eval_int(&z.node, &eprog.consts))) {
+                                factors = Some((x, y, z));
+                            }
+                        }
+                    }
+                    let total = a.args.first().copied().flatten();
+                    match (factors, total) {
+                        (Some(f), _) => {
+                            report.count("stage:thread-group-size-compared");
+                            if f != r {
+                                add("thread-group-size-mismatch", format!("`{}`: reported {:?}, the kernel says {:?}", func.name, r, f), detail());
+                            }
+                        }
+                        (None, Some(t)) => {
+                            report.count("stage:thread-group-size-compared(product)");
+                            if t != r.0 as i64 * r.1 as i64 * r.2 as i64 {
+                                add("thread-group-size-mismatch", format!("`{}`: reported {:?}, the kernel says {} threads", func.name, r, t), detail());
+                            }
+                        }
+                        (None, None) => report.count("skipped:numthreads-not-evaluated"),
+                    }
+                }
+            }
+        }
+        // the size written in the source program
+        if let (Some(src), PipeId::Known(pd)) = (src, id) {
+            if let Some((_, entry)) = pd.stages.get(si) {
+                let short = entry.rsplit("::").next().unwrap_or(entry);
+                let candidates: Vec<&Func> = src.funcs.iter().filter(|f| f.owner.is_none() && f.name == short).collect();
+                if candidates.len() == 1 {
+                    match (s.thread_group_size, numthreads_of(candidates[0], &src.consts)) {
+                        (Some(r), Some(Ok(e))) if r != e => add("thread-group-size-mismatch:source", format!("`{}`: reported {:?}, the source says [numthreads{:?}]", short, r, e), detail()),
+                        (None, Some(Ok(e))) => add("thread-group-size-mismatch:source", format!("`{}`: nothing reported, the source says [numthreads{:?}]", short, e), detail()),
+                        (Some(r), None) => add("thread-group-size-mismatch:source", format!("`{}`: reported {:?}, the source has no [numthreads]", short, r), detail()),
+                        (_, Some(Err(()))) => report.count("skipped:source-numthreads-not-evaluated"),
+                        _ => report.count("stage:thread-group-size-agrees-with-source"),
+                    }
+                }
+            }
+        }
+    }
+
+    // ---- is_used against reachability in the source program --------------------------------------
+    if let Some(src) = src {
+        let entries: Option<Vec<usize>> = match id {
+            PipeId::NoPipeline => Some(Vec::new()),
+            PipeId::Unknown => None,
+            PipeId::Known(pd) => {
+                let mut v = Vec::new();
+                let mut ok = true;
+                for (_, entry) in &pd.stages {
+                    let short = entry.rsplit("::").next().unwrap_or(entry);
+                    let c: Vec<usize> = (0..src.funcs.len()).filter(|i| src.funcs[*i].owner.is_none() && src.funcs[*i].name == short && src.funcs[*i].body.is_some()).collect();
+                    if c.len() == 1 {
+                        v.push(c[0]);
+                    } else {
+                        ok = false;
+                    }
+                }
+                if ok {
+                    Some(v)
+                } else {
+                    None
+                }
+            }
+        };
+        match entries {
+            None => report.count("skipped:used-flag(entry points not identified)"),
+            Some(entries) => {
+                let r = reach(src, &entries);
+                for (g, group) in groups.iter().enumerate() {
+                    for m in &group.bindings {
+                        let Some(si) = match_source(src, &m.name) else { continue };
+                        let (must, may) = (r.must.contains(&si), r.may.contains(&si));
+                        report.count(if must == may {
+                            if must {
+                                "used-flag:decided-reachable"
+                            } else {
+                                "used-flag:decided-unreachable"
+                            }
+                        } else {
+                            "used-flag:undecided(over- and under-approximation differ)"
+                        });
+                        report.count(&format!("used-flag:{}:reported-{}", prefix, if m.is_used { "used" } else { "unused" }));
+                        let detail = || Json::obj().set("group", g).set("binding", format!("{:?}", m)).set("source_declaration", format!("{:?}", src.globals[si].name)).set("certainly_reachable", must).set("possibly_reachable", may);
+                        if must && !m.is_used {
+                            add("used-flag:reachable-reported-unused", format!("`{}` is reachable from the entry points of the pipeline but reported unused", m.name), detail());
+                        }
+                        if !tgt.is_hlsl() && m.is_used && !may {
+                            add("used-flag:unreachable-reported-used", format!("`{}` is reported used but no entry point of the pipeline can reach it", m.name), detail());
+                        }
+                    }
+                }
+            }
+        }
+    }
+    (findings, compared)
+}
+
+// =====================================================================================================
+// 6. Workload
+// =====================================================================================================
+
+/// Preprocess + parse the source program the way compile() does for this target (own walk over the result)
+fn parse_source(files: &Files, entry: &str, defines: &[(String, String)], msl: bool) -> Option<ast::Module> {
+    let r = guard(|| {
+        let mut sm = rssl::text::SourceManager::new();
+        let mut handler = FilesHandler::new(files);
+        let mut all: Vec<(&str, &str)> = vec![("__HLSL_VERSION", "2021"), ("RSSL_TARGET_HLSL", if msl { "0" } else { "1" }), ("RSSL_TARGET_MSL", if msl { "1" } else { "0" })];
+        for (a, b) in defines {
+            all.push((a.as_str(), b.as_str()));
+        }
+        let tokens = rssl::preprocess::preprocess(entry, &mut sm, &mut handler, &all).ok()?;
+        let tokens = rssl::preprocess::prepare_tokens(&tokens);
+        rssl::parser::parse(&tokens).ok()
+    });
+    r.ok().flatten()
+}
+
+struct Input<'a> {
+    files: &'a Files,
+    entry: &'a str,
+    defines: &'a [(String, String)],
+    origin: &'a str,
+    /// corpus sets without pipelines are only compiled in no-pipeline mode
+    pipelines_expected: bool,
+}
+
+fn witness(input: &Input, tgt: Tgt, mode: &Mode, index: usize, pipe: &Pipe, f: &Finding) -> Json {
+    let mut w = Json::obj().set("origin", input.origin).set("entry", input.entry).set("target", tgt.name()).set("mode", mode.name()).set("pipeline_index", index);
+    if input.files.total_len() <= 48 * 1024 {
+        w.put("files", input.files.to_json());
+    }
+    w.put("defines", Json::Arr(input.defines.iter().map(|(a, b)| Json::Arr(vec![Json::str(a), Json::str(b)])).collect()));
+    w.put("observed", f.detail.clone());
+    w.put("stages", format!("{:?}", pipe.stages));
+    w.put("metadata", format!("{:?}", pipe.metadata));
+    let src: String = pipe.source.chars().take(24 * 1024).collect();
+    w.put("emitted_source", src);
+    w
+}
+
+/// Compile one input for one (target, mode) and examine every pipeline. Returns the number of bindings compared.
+fn examine_config(input: &Input, tgt: Tgt, mode: &Mode, src: Option<&Prog>, report: &mut Report) -> u64 {
+    let mut opts = Opts::new(tgt, mode.clone());
+    opts.defines = input.defines.to_vec();
+    let outcome = rs::compile(input.files, input.entry, &opts);
+    let class = format!("compile:{}:{}:{}", if tgt.is_hlsl() { "hlsl" } else { "msl" }, if matches!(mode, Mode::NoPipeline) { "no_pipeline" } else if matches!(mode, Mode::All) { "all" } else { "named" }, outcome.class());
+    report.count(&class);
+    let pipes = match &outcome {
+        Outcome::Ok(p) => p,
+        Outcome::Panic(c) => {
+            // totality is C08's property
+            report.count(&format!("skipped:panic:{}", c.signature()));
+            return 0;
+        }
+        _ => return 0,
+    };
+    report.evaluations += 1;
+    let mut compared = 0;
+    for (index, pipe) in pipes.iter().enumerate() {
+        report.count("pipelines-examined");
+        let id = match (mode, src) {
+            (Mode::NoPipeline, _) => PipeId::NoPipeline,
+            (_, None) => PipeId::Unknown,
+            (Mode::Named(n), Some(s)) => {
+                let c: Vec<&PipelineDef> = s.pipelines.iter().filter(|p| &p.name == n).collect();
+                if c.len() == 1 {
+                    PipeId::Known(c[0])
+                } else {
+                    PipeId::Unknown
+                }
+            }
+            (Mode::All, Some(s)) => {
+                // pipelines are compiled in source order
+                if s.pipelines.len() == pipes.len() {
+                    PipeId::Known(&s.pipelines[index])
+                } else {
+                    PipeId::Unknown
+                }
+            }
+        };
+        // the stages must be those of the pipeline definition, otherwise the identification is not trusted
+        let id = match id {
+            PipeId::Known(pd) => {
+                let a: Vec<ShaderStage> = pd.stages.iter().map(|s| s.0).collect();
+                let b: Vec<ShaderStage> = pipe.stages.iter().map(|s| s.stage).collect();
+                if a == b {
+                    PipeId::Known(pd)
+                } else {
+                    report.count("skipped:pipeline-not-identified");
+                    PipeId::Unknown
+                }
+            }
+            other => other,
+        };
+        let (findings, n) = examine_pipe(tgt, pipe, src, &id, report);
+        compared += n;
+        report.count_n("bindings-compared", n);
+        for f in findings {
+            let w = witness(input, tgt, mode, index, pipe, &f);
+            report.violation(&f.signature, &format!("{} [{} {} pipeline {} of {}]", f.summary, tgt.name(), mode.name(), index, input.origin), w);
+        }
+    }
+    compared
+}
+
+fn examine_input(input: &Input, report: &mut Report) -> u64 {
+    let mut compared = 0;
+    let src_hlsl = parse_source(input.files, input.entry, input.defines, false).map(|m| Prog::collect(&m));
+    let src_msl = parse_source(input.files, input.entry, input.defines, true).map(|m| Prog::collect(&m));
+    if src_hlsl.is_none() {
+        report.count("input:source-not-parsed");
+    }
+    for tgt in rs::ALL_TARGETS {
+        let src = if tgt.is_hlsl() { src_hlsl.as_ref() } else { src_msl.as_ref() };
+        compared += examine_config(input, tgt, &Mode::NoPipeline, src, report);
+        if !input.pipelines_expected {
+            continue;
+        }
+        let names: Vec<String> = src.map(|s| s.pipelines.iter().map(|p| p.name.clone()).collect()).unwrap_or_default();
+        if names.is_empty() {
+            continue;
+        }
+        compared += examine_config(input, tgt, &Mode::All, src, report);
+        let mut seen: Vec<&String> = Vec::new();
+        for n in &names {
+            if !seen.contains(&n) {
+                seen.push(n);
+                compared += examine_config(input, tgt, &Mode::Named(n.clone()), src, report);
+            }
+        }
+    }
+    compared
+}
+
+enum Case {
+    Gen(u64),
+    Corpus(usize, usize),
+    Snippet(usize),
+}
+
+pub fn generated_program(seed: u64, index: u64) -> c05_res::ResProgram {
+    let mut rng = Rng::for_case(seed, 0x5001, index);
+    c05_res::generate(&mut rng)
+}
+
+fn run(ctx: &Ctx) -> Report {
+    let sets = corpus::load();
+    let snippets = corpus::test_snippets();
+    let mut cases: Vec<Case> = Vec::new();
+    // the small inputs first: a deadline then cuts generated cases, not the corpus
+    for (si, s) in sets.iter().enumerate() {
+        for ei in 0..s.entries.len() {
+            cases.push(Case::Corpus(si, ei));
+        }
+    }
+    for i in 0..snippets.len() {
+        cases.push(Case::Snippet(i));
+    }
+    for i in 0..ctx.tier.pick(2000, 30_000) {
+        cases.push(Case::Gen(i));
+    }
+    let seed = ctx.seed;
+    let mut report = crate::par::run_cases(ctx, cases.len() as u64, |index, report| {
+        let none: Vec<(String, String)> = Vec::new();
+        let (files, entry, defines, origin, pipelines_expected, features): (Files, String, Vec<(String, String)>, String, bool, Vec<String>) = match &cases[index as usize] {
+            Case::Gen(i) => {
+                let p = generated_program(seed, *i);
+                report.max("max:generated-resources", p.resources as u64);
+                (Files::single("main.rssl", &p.text), "main.rssl".into(), none, format!("gen::c05_res:{}", i), true, p.features)
+            }
+            Case::Corpus(si, ei) => {
+                let s = &sets[*si];
+                (s.files.clone(), s.entries[*ei].clone(), s.defines.clone(), format!("corpus:{}:{}", s.name, s.entries[*ei]), s.has_pipelines, vec!["corpus".into()])
+            }
+            Case::Snippet(i) => (Files::single("main.rssl", &snippets[*i]), "main.rssl".into(), none, format!("unit-test-snippet:{}", i), true, vec!["unit-test-snippet".into()]),
+        };
+        let input = Input {
+            files: &files,
+            entry: &entry,
+            defines: &defines,
+            origin: &origin,
+            pipelines_expected,
+        };
+        let compared = examine_input(&input, report);
+        if compared > 0 {
+            let text = files.0.iter().find(|f| f.0 == entry).map(|f| f.1.as_str()).unwrap_or("");
+            report.distinct(hash_str(text) ^ hash_str(origin.split(':').next().unwrap_or("")));
+            for f in features {
+                report.count(&format!("feature:{}", f));
+            }
+            if report.want_sample() && index % 211 == 7 {
+                report.sample(Json::obj().set("origin", origin.as_str()).set("input_prefix", text.chars().take(1200).collect::<String>()));
+            }
+        } else {
+            report.count("input:nothing-compared");
+        }
+    });
+    if snippets.len() < 50 {
+        report.inconclusive("could not read the unit-test snippets from /repo");
+    }
+    for needed in ["metadata:hlsl:Texture2d", "metadata:msl:Texture2d", "inline-constants:compared", "stage:thread-group-size-compared", "used-flag:decided-reachable", "used-flag:decided-unreachable", "source:bindless-compared"] {
+        if report.counters.get(needed).copied().unwrap_or(0) == 0 {
+            report.inconclusive(&format!("the workload never exercised `{}`", needed));
+        }
+    }
+    report
+}
+
+fn replay(_ctx: &Ctx, witness: &Json) -> Report {
+    let mut report = Report::new();
+    let entry = witness.get_str("entry").unwrap_or("main.rssl").to_string();
+    let mut defines = Vec::new();
+    if let Some(d) = witness.get("defines").and_then(|d| d.as_arr()) {
+        for kv in d {
+            if let Some(kv) = kv.as_arr() {
+                if kv.len() == 2 {
+                    defines.push((kv[0].as_str().unwrap_or("").to_string(), kv[1].as_str().unwrap_or("").to_string()));
+                }
+            }
+        }
+    }
+    let origin = witness.get_str("origin").unwrap_or("replay").to_string();
+    let files = match witness.get("files") {
+        Some(f) => Files::from_json(f),
+        None => {
+            let set = origin.split(':').nth(1).unwrap_or("");
+            match corpus::load().into_iter().find(|s| s.name == set) {
+                Some(s) => s.files,
+                None => {
+                    report.inconclusive("witness has no files and names no corpus set");
+                    return report;
+                }
+            }
+        }
+    };
+    let input = Input {
+        files: &files,
+        entry: &entry,
+        defines: &defines,
+        origin: &origin,
+        pipelines_expected: true,
+    };
+    match (witness.get_str("target"), witness.get_str("mode")) {
+        (Some(t), Some(m)) => {
+            let tgt = Tgt::from_name(t);
+            let src = parse_source(&files, &entry, &defines, !tgt.is_hlsl()).map(|m| Prog::collect(&m));
+            examine_config(&input, tgt, &Mode::from_name(m), src.as_ref(), &mut report);
+        }
+        _ => {
+            examine_input(&input, &mut report);
+        }
+    }
+    report
+}
